@@ -640,6 +640,15 @@ impl<T: Config> P2PSession<T> {
                 .expect("Missing local input while calling advance_frame().");
             let actual_frame = self.sync_layer.add_local_input(handle, player_input);
             if actual_frame != NULL_FRAME {
+                if self.local_connect_status[handle].last_frame == NULL_FRAME {
+                    // The first input of this player lands on frame `actual_frame`; the frames
+                    // before it hold the default input in our own queue. Announce them too:
+                    // with several local players on different delays the remotes would otherwise
+                    // never be sent the frames on which only some of them have real input yet.
+                    for frame in 0..actual_frame {
+                        self.queue_outgoing_local_input(handle, PlayerInput::blank_input(frame));
+                    }
+                }
                 let queued_input = PlayerInput::new(actual_frame, player_input.input);
                 self.local_connect_status[handle].last_frame = queued_input.frame;
                 self.queue_outgoing_local_input(handle, queued_input);
